@@ -48,7 +48,7 @@ const (
 	c16InputAddr  = "redis.verif:6379"
 	c16Base       = int64(1000) // first offset of the leader's log / offset of its snapshot
 	c16Step       = 250 * time.Millisecond
-	c16Horizon    = 60 * time.Second // virtual time a follower gets to re-synchronise
+	c16Horizon    = 30 * time.Second // virtual time a follower gets to re-synchronise
 	c16NoneSpan   = 12 * time.Second // virtual time observed when no synchronisation is possible
 	c16ReadSpan   = 3 * time.Second  // virtual time a read-back gets to deliver bytes that are present
 	c16BufSize    = 64 * 1024
